@@ -693,10 +693,18 @@ class VM:
         elif op == OpCode.IN:
             obj = self.stack.pop()
             key = self.stack.pop()
-            if not isinstance(obj, JSObject):
-                raise JSTypeError("Cannot use 'in' operator on non-object")
             key_str = to_string(key)
-            self.stack.append(obj.holder(key_str) is not None)
+            if isinstance(obj, JSFunction):
+                proto = self._function_prototype()
+                self.stack.append(
+                    self._function_has_own(obj, key_str)
+                    or key_str in ("bind", "call", "apply", "toString")
+                    or (proto is not None and proto.holder(key_str) is not None)
+                )
+            elif not isinstance(obj, JSObject):
+                raise JSTypeError("Cannot use 'in' operator on non-object")
+            else:
+                self.stack.append(obj.holder(key_str) is not None)
 
         # Control flow
         elif op == OpCode.JUMP:
@@ -777,6 +785,8 @@ class VM:
             elif isinstance(obj, JSObject):
                 # Own enumerable keys (for arrays: the indices, then the rest)
                 keys = obj.keys()
+            elif isinstance(obj, JSFunction):
+                keys = list(obj._properties)
             else:
                 keys = []
             self.stack.append(ForInIterator(keys))
@@ -1148,7 +1158,20 @@ class VM:
             if key_str == "name":
                 return obj.name
             if key_str == "prototype":
-                return getattr(obj, "_prototype", UNDEFINED) or UNDEFINED
+                proto = getattr(obj, "_prototype", UNDEFINED)
+                return UNDEFINED if proto is None else proto
+            if key_str in obj._properties:
+                return obj._properties[key_str]
+            # Inherited from Function.prototype (and Object.prototype)
+            proto = self._function_prototype()
+            holder = proto.holder(key_str) if proto is not None else None
+            if holder is not None:
+                if holder.is_accessor(key_str):
+                    getter = holder._getters.get(key_str)
+                    if getter is None:
+                        return UNDEFINED
+                    return self._invoke_getter(getter, obj)
+                return holder.get_own(key_str)
             return UNDEFINED
 
         if isinstance(obj, JSObject):
@@ -2471,13 +2494,37 @@ class VM:
                     self._invoke_setter(setter, obj, value)
                 return
             obj.set(key_str, value)
+        elif isinstance(obj, JSFunction):
+            if key_str == "prototype":
+                obj._prototype = value
+            elif key_str not in ("name", "length"):
+                obj._properties[key_str] = value
 
     def _delete_property(self, obj: JSValue, key: JSValue) -> bool:
         """Delete property from object."""
         if isinstance(obj, JSObject):
             key_str = to_string(key) if not isinstance(key, str) else key
             return obj.delete(key_str)
+        if isinstance(obj, JSFunction):
+            key_str = to_string(key) if not isinstance(key, str) else key
+            if key_str == "prototype" and hasattr(obj, "_prototype"):
+                return False
+            obj._properties.pop(key_str, None)
+            return True
         return True
+
+    def _function_prototype(self) -> Optional[JSObject]:
+        """Function.prototype of this realm."""
+        constructor = self.globals.get("Function")
+        proto = constructor.get("prototype") if isinstance(constructor, JSObject) else None
+        return proto if isinstance(proto, JSObject) else None
+
+    @staticmethod
+    def _function_has_own(func: JSFunction, key: str) -> bool:
+        """Own properties of a function object."""
+        if key == "prototype":
+            return getattr(func, "_prototype", None) is not None
+        return key in ("name", "length") or key in func._properties
 
     def _invoke_getter(self, getter: Any, this_val: JSValue) -> JSValue:
         """Invoke a getter function and return its result."""
